@@ -53,12 +53,6 @@ def handle (op : String) (a : Json) : P Json := do
     let l1 ← lanelet (← field a "l1")
     let l2 ← lanelet (← field a "l2")
     pure <| resJ laneletJ (mergeLanelets l1 l2)
-  | "merge_lens" =>
-    let lp ← getList asRat a "lens_pred"
-    let ls ← getList asRat a "lens_suc"
-    let gap ← getRat a "gap"
-    let joined ← getBool a "joined"
-    pure <| Json.arr ((cumDist (mergeLens joined lp ls gap)).map ratJ).toArray
   | "routes" =>
     -- one network, many (start, maxLen) queries; answers [succ paths, pred paths] per query
     let g ← getList node a "net"
